@@ -425,6 +425,8 @@ func ruleResetCover(c *RC) *RuleResult {
 		if bad == "" {
 			r.ok("Context." + f + " re-initialised on every view-0 path")
 			c.checkClearedWrites(r, f)
+		} else if n, notTag := c.epochTag(fv); n > 0 && notTag == "" {
+			r.ok("Context." + f + " is an epoch tag (each read is a comparison with the current height / view): what it holds of an old height is never used as state of the new one")
 		} else {
 			r.fail(ew.Name+"/reset:"+f, c.Prog.Pos(ew.Decl), "Context."+f+" survives the height reset on path "+bad+" and is not in the carry-over table")
 		}
@@ -952,6 +954,8 @@ func ruleViewResetCover(c *RC) *RuleResult {
 		r.Sites++
 		if pv || ph {
 			r.ok("Context." + f + " classified as " + map[bool]string{true: "per-view", false: "per-height"}[pv])
+		} else if n, bad := c.epochTag(fv); n > 0 && bad == "" {
+			r.ok("Context." + f + " is an epoch tag: each of its reads is compared with the current height / view only, it cannot carry a proposal across views")
 		} else {
 			r.fail(ew.Name+"/unclassified:"+f, c.Prog.Pos(ew.Decl), "Context."+f+" is new state that is classified neither as per-view (dropped on every epoch write) nor as per-height (kept across views with a reason): state kept across a view change is how stale proposals leak into later views")
 		}
@@ -1178,7 +1182,6 @@ func (c *RC) reachesFn(from, to *FuncInfo, depth int) bool {
 	return false
 }
 
-
 // resultOfCacheGetter: t is the result of a module function every exit of which returns nil or the cached field loc
 // (the lazy constructor of that cache: a local holding its result is the cached object).
 func (c *RC) resultOfCacheGetter(t *Term, loc string) bool {
@@ -1213,7 +1216,6 @@ func (c *RC) resultOfCacheGetter(t *Term, loc string) bool {
 	}
 	return n > 0
 }
-
 
 // nilAgrees: a nil argument stands for the cache field only on a path where the field is nil too.
 func nilAgrees(sn *Snap, loc string) bool {
